@@ -20,7 +20,10 @@ _TRANS = set()
 
 def worker_init():
     import gc
+    import warnings
     from . import vxpm
+    # coroutines of abandoned (killed / torn down) simulated processes are never awaited: expected, not worth a line each
+    warnings.filterwarnings("ignore", category=RuntimeWarning, message="coroutine .* was never awaited")
     vxpm.install()
     # executions collect their own garbage at tear-down (deterministically); nothing is collected in between
     gc.collect()
